@@ -1,13 +1,95 @@
 From Coq Require Import NArith List Bool.
 Import ListNotations.
-From SK Require Import model.C14_Model proof.C14_Proof.
+From SK Require Import model.C14_Model proof.C14_Proof proof.C14_Batch proof.C14_Cluster.
 Local Open Scope N_scope.
 
+(** Pinned key discipline (the repaired code): for EVERY allocator and collector behaviour (every legal
+    trace: any address-reuse history, any collection schedule), every cache size and cache on/off, each
+    application returns execute(content of the substrate object, content of the rule object, inv). *)
+Theorem C14_cache_transparent :
+  forall (R : Type) (execute : N -> N -> bool -> R) (cache_on : bool) (cmax : nat)
+         (tr : list event) (outs : list (bool * R)) (fin : state R),
+    run R execute true cache_on cmax (init R) tr = (true, outs, fin) ->
+    map snd outs = spec execute [] tr.
+Proof. exact cache_transparent. Qed.
+Print Assumptions C14_cache_transparent.
+
+(** The same from ANY initial cache whose entries hold the result of their pinned objects — whatever
+    the keys are (e.g. a pickled copy of the cache in a worker process, where the stored ids are
+    meaningless): the identity check, not the key, makes a hit sound. *)
+Theorem C14_cache_transparent_any_initial_cache :
+  forall (R : Type) (execute : N -> N -> bool -> R) (cache_on : bool) (cmax : nat)
+         (cs : list N) (s : state R) (tr : list event) (outs : list (bool * R)) (fin : state R),
+    (next s = N.of_nat (length cs) /\
+     Forall (fun x => (N.to_nat (o_id x) < length cs)%nat /\ nth (N.to_nat (o_id x)) cs 0 = o_cont x) (heap s) /\
+     Forall (fun e => e_res e = execute (nth (N.to_nat (e_ps e)) cs 0) (nth (N.to_nat (e_pr e)) cs 0) (e_kinv e)
+                      /\ (N.to_nat (e_ps e) < length cs)%nat /\ (N.to_nat (e_pr e) < length cs)%nat) (cache s)) ->
+    run R execute true cache_on cmax s tr = (true, outs, fin) ->
+    map snd outs = spec execute cs tr.
+Proof. exact cache_transparent_from. Qed.
+Print Assumptions C14_cache_transparent_any_initial_cache.
+
+Theorem C14_cache_on_equals_off :
+  forall (R : Type) (execute : N -> N -> bool -> R) (cmax : nat) (tr : list event)
+         (outs1 : list (bool * R)) (fin1 : state R) (outs2 : list (bool * R)) (fin2 : state R),
+    run R execute true true cmax (init R) tr = (true, outs1, fin1) ->
+    run R execute true false cmax (init R) tr = (true, outs2, fin2) ->
+    map snd outs1 = map snd outs2.
+Proof. exact cache_on_equals_off. Qed.
+Print Assumptions C14_cache_on_equals_off.
+
+(** Unpinned discipline (the code before commit 4b75757): refuted by a two-entry history in which the
+    allocator gives the freed first substrate's address to the second. *)
 Theorem C14_cache_transparent_unpinned_refuted :
-  exists (execute : N -> N -> bool -> list N) (tr : list event) (cmax : nat),
+  exists (execute : N -> N -> bool -> list N) (tr : list event) (cmax : nat) outs fin,
     (1 <= cmax)%nat /\
-    let '(ok, outs, _) := run (list N) execute false true cmax (init _) tr in
-    ok = true /\ client_view tr = [CAlloc 10; CAlloc 20; CApply 0 1 false; CRelease 0; CAlloc 11; CApply 2 1 false] /\
-    nth 1 outs (false, []) = (true, execute 10 20 false) /\ execute 10 20 false <> execute 11 20 false.
+    run (list N) execute false true cmax (init _) tr = (true, outs, fin) /\
+    client_view tr = [CAlloc 10; CAlloc 20; CApply 0 1 false; CRelease 0; CAlloc 11; CApply 2 1 false] /\
+    map snd outs <> spec execute [] tr.
 Proof. exact cache_transparent_unpinned_refuted. Qed.
 Print Assumptions C14_cache_transparent_unpinned_refuted.
+
+(** BatchReactor.fit = map single: for every legal trace whose client part is the program of
+    [calls] fit calls on one BatchReactor over [subs] (shared rule objects [pool] built before and
+    dropped after), the outputs read off the applier's answers are, per call and per entry, the rules
+    applied to that entry alone. *)
+Theorem C14_batch_is_map :
+  forall (execute : N -> N -> bool -> list N) (cache_on : bool) (cmax : nat) (dd : bool)
+         (pool subs : list N) (calls : list (list rspec * bool))
+         (tr : list event) (outs : list (bool * list N)) (fin : state (list N)),
+    run (list N) execute true cache_on cmax (init _) tr = (true, outs, fin) ->
+    client_view tr = batch_prog pool subs calls ->
+    Forall (fun call => Forall (fun r => match r with RStr _ => True | RObj o => (N.to_nat o < length pool)%nat end)
+                          (fst call)) calls ->
+    fit_outputs dd (length subs) calls (map snd outs) =
+    map (fun call => map (single execute dd (map (rule_content pool) (fst call)) (snd call)) subs) calls.
+Proof. exact batch_is_map. Qed.
+Print Assumptions C14_batch_is_map.
+
+(** _dedupe: same elements, no repetition, and (complete characterisation from the right) the output
+    only ever grows at its end, by an element not met before: order-preserving, first occurrences. *)
+Theorem C14_dedupe_first_occurrences :
+  dedupe [] = [] /\
+  (forall l x, dedupe (l ++ [x]) = if existsb (N.eqb x) l then dedupe l else dedupe l ++ [x]) /\
+  (forall l, NoDup (dedupe l)) /\ (forall l x, In x (dedupe l) <-> In x l) /\
+  (forall l, dedupe (dedupe l) = dedupe l).
+Proof.
+  exact (conj dedupe_nil (conj dedupe_snoc (conj dedupe_NoDup (conj dedupe_In dedupe_idempotent)))).
+Qed.
+Print Assumptions C14_dedupe_first_occurrences.
+
+(** Batched clustering = one-shot clustering, for every symmetric transitive [iso] and every attribute:
+    every batch size (0 encodes None) gives the one-shot class of every item (hence the same partition). *)
+Theorem C14_cluster_batches :
+  forall (A : Type) (iso : A -> A -> bool) (att : A -> N),
+    (forall x y, iso x y = true -> iso y x = true) ->
+    (forall x y z, iso x y = true -> iso y z = true -> iso x z = true) ->
+    forall (items : list A) (bs : nat), fst (cfit A iso att items [] bs) = oneshot A iso att items.
+Proof. exact cluster_batches_oneshot. Qed.
+Print Assumptions C14_cluster_batches.
+
+Theorem C14_cluster_batches_templates :
+  forall (A : Type) (iso : A -> A -> bool) (att : A -> N) (items : list A) (ts : list (A * nat)) (bs : nat),
+    ts <> [] -> cfit A iso att items ts bs = cluster A iso att items ts.
+Proof. exact cluster_batches_templates. Qed.
+Print Assumptions C14_cluster_batches_templates.
